@@ -930,6 +930,41 @@ def r08_tick_typestate(ctx):
               "the property requires exact part, then months, then years" %
               [u for u, _ in sorted(idx.items(), key=lambda kv: kv[1])],
               ("C05",))
+    # the units of a duration are applied to the point's own fields, in
+    # its own UTC offset: no zone conversion on the Duration path (the
+    # month reached and the end-of-month clamp are those of the local date)
+    from ..flow import path_conds as _pc8
+    addm = tp.methods["__add__"]
+    oth = addm.call_params[0] if addm.call_params else "other"
+    for n in walk_no_nested(addm.node):
+        if isinstance(n, ast.Call) and isinstance(n.func, ast.Attribute) \
+                and n.func.attr in ("to_utc", "to_time_zone",
+                                    "to_local_time_zone"):
+            in_tp_branch = False
+            todo = list(_pc8(n))
+            while todo:
+                t, pol = todo.pop()
+                if isinstance(t, ast.BoolOp) and isinstance(
+                        t.op, ast.And) and pol:
+                    todo += [(v, True) for v in t.values]
+                elif pol and isinstance(t, ast.Call) and U(
+                        t.func) == "isinstance" and len(t.args) == 2 and \
+                        U(t.args[0]) == oth and "TimePoint" in U(t.args[1]):
+                    in_tp_branch = True
+                elif pol and isinstance(t, ast.Name):
+                    from ..flow import single_def as _sd8
+                    v = _sd8(addm.node, t.id)
+                    if v is not None:
+                        todo.append((v, True))
+            rep.check(in_tp_branch, "R08.apply-order",
+                      ctx.fkey(addm, n, "own-offset"), addm.loc(n),
+                      "zone conversions in __add__ belong to the "
+                      "truncated-point branch",
+                      "TimePoint.__add__ converts the point with `%s` while "
+                      "applying a Duration: months and years are stepped on "
+                      "the date in the point's own UTC offset (2020-01-30T"
+                      "22:15-05:00 + P1M is 02-29 there, 02-28 when stepped "
+                      "on the UTC date)" % U(n)[:60], ("C05", "C01"))
     # p - d delegates to p + (-d)
     sub = tp.methods["__sub__"]
     rule3 = "R08.sub-delegates"
@@ -953,6 +988,53 @@ def r08_tick_typestate(ctx):
               "p - d is computed as p + (-1 * d)",
               "TimePoint.__sub__ (Duration branch) no longer delegates to "
               "__add__ with the negated duration", ("C01",))
+    # ... and so do Duration - Duration and recurrence - duration: what
+    # they return is the sum with the negation, untouched ("subtraction is
+    # addition of the negation")
+    for cname, props in (("Duration", ("C11",)),
+                         ("TimeRecurrence", ("C14", "C11"))):
+        c = ctx.model.cls(cname)
+        sm = c.methods.get("__sub__") if c is not None else None
+        if sm is None or not sm.call_params:
+            continue
+        other = sm.call_params[0]
+
+        def is_neg_sum(e):
+            if isinstance(e, ast.BinOp) and isinstance(e.op, ast.Add) and \
+                    U(e.left) == sm.self_name:
+                r = U(e.right).replace("(", "").replace(")", "")
+                return r in ("-1 * %s" % other, "%s * -1" % other,
+                             "-%s" % other)
+            if isinstance(e, ast.Call) and isinstance(
+                    e.func, ast.Attribute) and e.func.attr == "__add__" \
+                    and U(e.func.value) == sm.self_name and len(
+                        e.args) == 1:
+                r = U(e.args[0]).replace("(", "").replace(")", "")
+                return r in ("-1 * %s" % other, "%s * -1" % other,
+                             "-%s" % other)
+            return False
+        rets = [n for n in walk_no_nested(sm.node)
+                if isinstance(n, ast.Return)]
+        stores = [n for n in walk_no_nested(sm.node)
+                  if isinstance(n, (ast.Assign, ast.AugAssign)) and any(
+                      isinstance(t, ast.Attribute) for t in (
+                          n.targets if isinstance(n, ast.Assign)
+                          else [n.target]))]
+        from ..flow import single_def as _sd
+        okr = bool(rets) and not stores
+        for n in rets:
+            v = n.value
+            if isinstance(v, ast.Name):
+                v = _sd(sm.node, v.id)
+            if v is None or not is_neg_sum(v):
+                okr = False
+        rep.check(okr, rule3, ctx.fkey(sm, None, "negated-add"), sm.loc(),
+                  "%s - d is returned as self + (-1 * d), untouched" % cname,
+                  "%s.__sub__ does not simply return `self + -1 * %s`%s: "
+                  "a - b then differs from a + (-1 * b), and (a - b) + b "
+                  "from a" % (cname, other, " (it writes slots of the "
+                              "result afterwards)" if stores else ""),
+                  props)
 
 
 def r13c_rep_preserved(ctx):
